@@ -105,6 +105,26 @@ pub struct Mon {
     pub panic_sites: HashMap<(Kind, String), u64>,
 }
 
+/// The part of the monitors' memory that describes the *committed* history (what has accumulated,
+/// which banks were ever killed, which accounts were transferred, pause windows, ...). A
+/// simulation is judged like a transaction that would commit, but it does not commit: this state
+/// is saved before and restored after (see `World::probe`).
+#[derive(Clone)]
+pub struct MonState {
+    eps_sum: HashMap<Pubkey, Rat>,
+    deficit: HashMap<Pubkey, Rat>,
+    dust_a: HashMap<Pubkey, i128>,
+    dust_l: HashMap<Pubkey, i128>,
+    tag_at_open: HashMap<(Pubkey, Pubkey), u8>,
+    transferred: HashSet<Pubkey>,
+    bracket: HashMap<Pubkey, (refm::RefHealth, refm::RefHealth)>,
+    delev: HashMap<Pubkey, (i64, u64)>,
+    ever_killed: HashSet<Pubkey>,
+    rcv_started_in_tx: HashSet<Pubkey>,
+    pause_window: HashMap<Pubkey, (i64, i64)>,
+    venue_ops: HashMap<Pubkey, u64>,
+}
+
 /// Program error codes (Anchor custom codes) the monitors need to recognise.
 pub mod err {
     use marginfi::errors::MarginfiError as E;
@@ -134,6 +154,36 @@ impl Mon {
     }
     fn en(&self, p: &str) -> bool {
         self.on.contains(p)
+    }
+    pub fn save_state(&self) -> MonState {
+        MonState {
+            eps_sum: self.eps_sum.clone(),
+            deficit: self.deficit.clone(),
+            dust_a: self.dust_a.clone(),
+            dust_l: self.dust_l.clone(),
+            tag_at_open: self.tag_at_open.clone(),
+            transferred: self.transferred.clone(),
+            bracket: self.bracket.clone(),
+            delev: self.delev.clone(),
+            ever_killed: self.ever_killed.clone(),
+            rcv_started_in_tx: self.rcv_started_in_tx.clone(),
+            pause_window: self.pause_window.clone(),
+            venue_ops: self.venue_ops.clone(),
+        }
+    }
+    pub fn restore_state(&mut self, s: MonState) {
+        self.eps_sum = s.eps_sum;
+        self.deficit = s.deficit;
+        self.dust_a = s.dust_a;
+        self.dust_l = s.dust_l;
+        self.tag_at_open = s.tag_at_open;
+        self.transferred = s.transferred;
+        self.bracket = s.bracket;
+        self.delev = s.delev;
+        self.ever_killed = s.ever_killed;
+        self.rcv_started_in_tx = s.rcv_started_in_tx;
+        self.pause_window = s.pause_window;
+        self.venue_ops = s.venue_ops;
     }
 
     /// One successfully executed marginfi instruction of a transaction that committed (or of a
